@@ -107,7 +107,10 @@ class ElementWithVars(ElementBase, Generic[VarType], ABC):
 
     def step(self, *args, **kwargs) -> None:
         """Steps the dynamics of this element."""
-        assert self.states is not None, "States not initialized."
+        if self.states is None:
+            # state-less elements (e.g., the ideal origin) have nothing to step
+            assert not self._states, "States not initialized."
+            return
         next_states = self.step_dynamics(*args, **kwargs)
         if self.next_states is None:
             self.next_states = {}
